@@ -3,6 +3,9 @@ EXTENDS Proxy, IOUtils
 AllKinds == {"q", "upd", "ins", "del", "ups", "dup", "ddl", "multi", "prep", "prepx", "prepq", "updw", "qfu"}
 \* statements around a failing one (a duplicate-key INSERT that the application handles) inside a transaction
 MidKinds == {"dup", "upd", "ins"}
+\* "drop" is the environment's step: the server (or the network) closes the connections that sit idle in the
+\* pool without the client noticing (wait_timeout, restart, fail-over); the programs around it must fare the same
+DropKinds == {"drop", "upd", "q", "prep"}
 EnvMaxSteps == atoi(IOEnv.MAXSTEPS)
 ScenFile == IOEnv.SCEN_FILE
 Dump ==
